@@ -12,6 +12,7 @@ import StsModel.Drv.Auth
 import StsModel.Drv.Announce
 import StsModel.Drv.Release
 import StsModel.Drv.Live
+import StsModel.Drv.Stop
 namespace Sts.Drv
 
 def main (args : List String) : IO UInt32 :=
@@ -31,6 +32,7 @@ def main (args : List String) : IO UInt32 :=
   | ["auth"] => run authStep Srv.init
   | ["announce"] => run announceStep ()
   | ["live"] => run liveStep {}
+  | ["stop"] => run stopStep {}
   | ["release"] => run Rel.relStep {}
   | ["recovery"] => run Rel.relStep {}
   | ["release-orig"] => run Rel.relStep { fx := Sts.Release.Fixes.original }
